@@ -113,18 +113,20 @@ Theorem C16_mirror : forall cfg b st mt sd rv tx rc phy lt keys hn,
 Proof. exact mirror. Qed.
 Print Assumptions C16_mirror.
 
-(* a request whose base payload decodes and whose message type is served ALWAYS gets such a mirrored answer
-   message, whatever is wrong with its other members - malformed DevEUI / DevAddr / DLSettings / CFList /
-   PHYPayload text, a member of the wrong JSON kind ([BadMember]) ... (audit finding 1, repaired) *)
+(* a JSON object whose message type is served ALWAYS gets such a mirrored answer message, whatever is wrong
+   with any other member of the base payload (SenderToken, ReceiverToken, VSExtension, a TransactionID that
+   is no uint32 ...) or of the typed payload (DevEUI / DevAddr / DLSettings / CFList / PHYPayload text, a
+   member of the wrong JSON kind): [BadMember r] / [Body r] carry what encoding/json filled in
+   (audit finding 1 and its sibling for base members, both repaired) *)
 Theorem C16_served_is_mirrored : forall cfg b r,
-  request_of b = Some r -> base_decode r = Ok tt ->
+  request_of b = Some r ->
   (r_mtype r = s_JoinReq \/ r_mtype r = s_RejoinReq \/ r_mtype r = s_HomeNSReq) ->
   mirrors r (handle cfg b) \/ handle cfg b = APanic.
 Proof. exact served_is_mirrored. Qed.
 Print Assumptions C16_served_is_mirrored.
 
-(* the only other answer is the bare HTTP 400 / Other result, given exactly when there is nothing to
-   mirror or no answer type: the base payload itself is refused, or the message type is not served *)
+(* the only other answer is the bare HTTP 400 / Other result, given exactly when there is nothing decoded
+   (the body is not a JSON object) or no answer type (the message type is not served) *)
 Theorem C16_answer_shape : forall cfg b,
   match handle cfg b with
   | AMsg _ _ sd rv tx _ _ _ _ _ =>
@@ -134,6 +136,25 @@ Theorem C16_answer_shape : forall cfg b,
   end.
 Proof. exact answer_shape. Qed.
 Print Assumptions C16_answer_shape.
+
+(* the DevEUI member must be the DevEUI inside the frame (second audit, finding 1, repaired): whatever
+   known device the member names, a join-request / rejoin-request frame of ANOTHER DevEUI is refused with
+   the mirrored answer - so Success implies that the device the keys were looked up for, and JSIntKey /
+   JSEncKey were derived for, is the device of the frame (the premise of C16_join_usable / C16_rejoin_usable
+   that the member equals the frame's DevEUI is necessary, not a restriction) *)
+Theorem C16_deveui_mismatch_refused : forall cfg r t p dk nskek aslabel askek,
+  (r_mtype r = s_JoinReq \/ r_mtype r = s_RejoinReq) -> base_decode r = Ok tt -> typed_decode r = Ok t ->
+  phy_unmarshal (t_phy t) = Ok p ->
+  match pl p with
+  | PLJoinRequest _ de _ | PLRejoin02 _ _ de _ | PLRejoin1 _ _ de _ => de <> t_deveui t
+  | _ => True
+  end ->
+  get_keys cfg (t_deveui t) = Found dk ->
+  get_kek cfg (r_sender r) = Ok nskek -> get_aslabel cfg (t_deveui t) = Ok aslabel -> get_kek cfg aslabel = Ok askek ->
+  handle cfg (Body r) = AMsg 200 (if bytes_eqb (r_mtype r) s_JoinReq then MJoinAns else MRejoinAns)
+                             (r_receiver r) (r_sender r) (r_txid r) ROther [] None no_keys None.
+Proof. exact deveui_mismatch_refused. Qed.
+Print Assumptions C16_deveui_mismatch_refused.
 
 (* rejoin-request type 0 / 1 / 2 of a known device (ANY four MIC bytes: the handler does not validate the
    MIC of a rejoin-request), OptNeg set: Success; the device decrypts the join-accept with JSEncKey and
